@@ -107,24 +107,27 @@ theorem assign_right_assoc (inp : Input) (pe : Nat → PState → Except PErr (P
     led inp pe t (.var name) p = (do let (v, p1) ← pe (bp .assign - 1) p; .ok (.assign name v, p1)) := by
   simp [led, ht]
 
-/-- what every dispatch target passes to parseExpression as right binding power, regenerated from the
-    source in a normalised form (`bp` = the binding power of the function's own token; a local that
-    names the value is resolved and unexported helper methods are followed, so the fact does not
-    depend on how the call is written) -/
+/-- the right binding power(s) the infix parser (led) / prefix parser (nud) of a token type passes to
+    parseExpression: looked up through the dispatch tables, so the names of the parser functions do not matter -/
+def ledRbp (tok : String) : Option (List String) :=
+  (Generated.leds.lookup tok).bind fun fn => Generated.parseExprArgs.lookup fn
+def nudRbp (tok : String) : Option (List String) :=
+  (Generated.nuds.lookup tok).bind fun fn => Generated.parseExprArgs.lookup fn
+
+/-- what the parser of every operator token passes to parseExpression as right binding power, regenerated from
+    the source in a normalised form (`bp` = the binding power of the function's own token; a local that names
+    the value is resolved and unexported helper methods are followed, so the fact does not depend on how the
+    call is written, and the parser functions are reached through the dispatch tables, so it does not depend
+    on what they are called): own power for the left-associative operators and unary minus, own power − 1 for
+    `:=`, 0 for both branches of `? :` and for bracketed operands -/
 theorem fact_led_right_binding_powers :
-    Generated.parseExprArgs.lookup "parseNumericOperator" = some ["bp"] ∧
-    Generated.parseExprArgs.lookup "parseComparisonOperator" = some ["bp"] ∧
-    Generated.parseExprArgs.lookup "parseBooleanOperator" = some ["bp"] ∧
-    Generated.parseExprArgs.lookup "parseStringConcatenation" = some ["bp"] ∧
-    Generated.parseExprArgs.lookup "parseFunctionApplication" = some ["bp"] ∧
-    Generated.parseExprArgs.lookup "parseDot" = some ["bp"] ∧
-    Generated.parseExprArgs.lookup "parseNegation" = some ["bp"] ∧
-    Generated.parseExprArgs.lookup "parseAssignment" = some ["bp-1"] ∧
-    Generated.parseExprArgs.lookup "parseConditional" = some ["0", "0"] ∧
-    Generated.parseExprArgs.lookup "parsePredicate" = some ["0"] ∧
-    Generated.parseExprArgs.lookup "parseFunctionCall" = some ["0"] ∧
-    Generated.parseExprArgs.lookup "parseSort" = some ["0"] ∧
-    Generated.parseExprArgs.lookup "parseBlock" = some ["0"] ∧
+    (["typeMult", "typeDiv", "typeMod", "typePlus", "typeMinus", "typeConcat", "typeEqual", "typeNotEqual", "typeLess",
+      "typeLessEqual", "typeGreater", "typeGreaterEqual", "typeIn", "typeApply", "typeAnd", "typeOr", "typeDot"].all
+        fun t => ledRbp t == some ["bp"]) = true ∧
+    ledRbp "typeAssign" = some ["bp-1"] ∧
+    ledRbp "typeCondition" = some ["0", "0"] ∧
+    ledRbp "typeBracketOpen" = some ["0"] ∧ ledRbp "typeParenOpen" = some ["0"] ∧ ledRbp "typeSort" = some ["0"] ∧
+    nudRbp "typeMinus" = some ["bp"] ∧ nudRbp "typeParenOpen" = some ["0"] ∧
     Generated.parseExprArgs.lookup "Parse" = some ["0"] := by decide
 
 /-- the token types that have a nud and a led in jparse.go (sorted: the order of a map literal
